@@ -187,10 +187,14 @@ def rule_range(repo):
 
 def rules(repo, tier):
     from ..memo import rule_memo
+    from ..optional import rule_optional
+    from ..axisdefault import rule_axisdefault
     from ..effects import rule_pure
     return list(_rules_core(repo, tier)) + [rule_pure(repo, 'C02.PURE', 'Log and its coefficient helpers write neither into their argument nor into tensors that '
                                                       'outlive the call (cached limits / constants filled in place): the value for one input never leaks into a later call',
                                                       LOG_TARGETS + [(OP, 'SE3_Log.forward'), (OP, 'Sim3_Log.forward'), (OP, 'RxSO3_Log.forward')]), rule_memo(repo, 'C02.MEMO', 'history independence: nothing computed from the contents of a tensor argument is kept '
                                                       'under the identity, address or version of that tensor, in module-level storage, or published from a generator '
                                                       'before it is complete - a later call with the same object and other contents must not be answered from it',
-                                                      ['pypose.lietensor.lietensor', 'pypose.lietensor.operation', 'pypose.lietensor.basics', 'pypose.lietensor.utils'], floor=3)]
+                                                      ['pypose.lietensor.lietensor', 'pypose.lietensor.operation', 'pypose.lietensor.basics', 'pypose.lietensor.utils'], floor=3),
+            rule_optional(repo, 'C02.OPT', ['pypose.lietensor.lietensor', 'pypose.lietensor.operation', 'pypose.lietensor.basics', 'pypose.lietensor.utils']),
+            rule_axisdefault(repo, 'C02.AXDEF', ['pypose.lietensor.lietensor', 'pypose.lietensor.operation', 'pypose.lietensor.basics', 'pypose.lietensor.utils', 'pypose.lietensor.convert', 'pypose.basics.ops'])]
